@@ -133,7 +133,12 @@ def oracle(c):
     if d['chain']:
         f = ps.get_fields()
         for k, v in d['chain'][-1].items():
-            if k == 'ctx' or k == 'math_mode_delimiter':
+            if k == 'ctx':
+                continue
+            if k == 'math_mode_delimiter':
+                # documented reset: no delimiter outside math mode; inside math mode the requested one is in effect
+                if f['in_math_mode'] and f[k] != v:
+                    return ('update-not-applied', {'key': k, 'value': repr(f[k]), 'requested': repr(v)})
                 continue
             pv = [tuple(p) for p in v] if k.startswith('latex_') else v
             if f[k] != pv:
